@@ -62,7 +62,7 @@ def swapcase_hex(s, prefix_len=0):
     return s[:prefix_len] + out
 
 
-def concretise(name, h, f, x, rnd):
+def concretise(name, h, f, x, rnd, jitter=False):
     """-> (text as spelled by x.form, canonical text, settings used) or None when the value cannot be made on this hasher"""
     w = getattr(h, "wrapped", h)
     kw = {}
@@ -74,6 +74,10 @@ def concretise(name, h, f, x, rnd):
     eff = None
     if f["hasRounds"]:
         eff = f["elided"] if x["rounds"] == IMPLICIT else x["rounds"]
+        if jitter and x["rounds"] != IMPLICIT and eff != f["elided"] and w.rounds_cost == "linear" and name not in ("scrypt",):
+            # thorough tier: other explicit costs of the same class (not the elided default)
+            lo = max(w.min_rounds, 1)
+            eff = rnd.choice([c for c in (lo + rnd.randrange(0, 3000), lo + rnd.randrange(0, 50), lo + 9, lo + 99, lo + 999) if c != f["elided"] and (not w.max_rounds or c <= w.max_rounds)] or [eff])
         kw["rounds"] = eff
     if f["hasSalt"] and getattr(w, "max_salt_size", 1) != 0:
         mn, mx = w.min_salt_size, w.max_salt_size
@@ -169,11 +173,13 @@ def run(chk):
                 sel.append(e)
         emits = sel
     done = 0
+    if not quick:
+        emits = [dict(e, _rep=k) for e in emits for k in range(5)]
     for e in emits:
         name = e["fam"]
         h, f = fams[name]
         x = e["x"]
-        c = concretise(name, h, f, x, rnd)
+        c = concretise(name, h, f, x, rnd, jitter=e.get("_rep", 0) > 0)
         if c is None:
             continue
         if c[0] == "generated-not-elided":
